@@ -1,3 +1,4 @@
+import Fpdec.Kernels.IntoFloat
 import Fpdec.Lemmas.IntoFloat
 import Fpdec.Lemmas.IntoFloatNearest
 import Fpdec.Props.C12_Sites
@@ -46,5 +47,18 @@ theorem rne_is_nearest (f : Spec.FloatFmt) (hf : f = Spec.FloatFmt.f64 ∨ f = S
 /-! ### non-vacuity -/
 example : intoFloat Profile.dev .f64 ⟨1, 1⟩ = .ok 4591870180066957722 := by decide   -- 0.1
 example : intoFloat Profile.release .f32 ⟨99999999, 8⟩ = .ok 1065353216 := by decide   -- 0.99999999 → 1.0f32 (carry)
+
+/-! ### translated kernels
+The Lean definitions `Gen.K.*` are regenerated from the Rust source on every run by `tools/fpkernels.py` (expression-level
+translation).  These theorems tie them to the hand-written model the property theorems above are about: a change of the Rust
+kernel that changes its translation breaks them. -/
+/-- `Float::from_decimal` (src/into_float.rs) instantiated for `f64` (`FRACTION_BITS = 52`, `EXP_BIAS = 1023`, `BITS = 64`) and `f32`
+    (23, 127, 32, `from_bits(bits as u32)`), as translated on this run -/
+theorem kernel_f64_from_decimal (prof : Profile) (d : Dec) :
+    Gen.K.f64_from_decimal prof d = fromDecimal prof Spec.FloatFmt.f64 d := Kernels.f64_from_decimal_eq prof d
+theorem kernel_f32_from_decimal (prof : Profile) (d : Dec) :
+    Gen.K.f32_from_decimal prof d = fromDecimal prof Spec.FloatFmt.f32 d := Kernels.f32_from_decimal_eq prof d
+theorem kernel_n_signif_bits (prof : Profile) (v : Nat) : Gen.K.n_signif_bits prof v = .ok (nSignifBits v) :=
+  Kernels.n_signif_bits_eq prof v
 
 end Fpdec.Props.C12
